@@ -527,3 +527,48 @@ func Rating(score float64) (string, bool) {
 	}
 	return "CRITICAL", true
 }
+
+// DistancesV4 returns the severity distances of e to the first dominating
+// highest-severity vector of its EQ1, EQ2, EQ3+EQ6 and EQ4 levels (self-tests).
+func DistancesV4(e Eff4) [4]int {
+	q := MacroV4(e)
+	var lv [15]int8
+	for i, name := range effNames {
+		if name == "E" {
+			continue
+		}
+		lv[i] = int8(lvl4(name, e.Get(name)))
+	}
+	return [4]int{dist4(&lv, cMaxEQ1[q[0]]), dist4(&lv, cMaxEQ2[q[1]]), dist4(&lv, cMaxEQ36[q[2]][q[5]]), dist4(&lv, cMaxEQ4[q[3]])}
+}
+
+// AllDominatingAgreeV4 reports whether every dominating highest-severity vector
+// of each level gives the same distance (so the choice of the first cannot matter).
+func AllDominatingAgreeV4(e Eff4) bool {
+	q := MacroV4(e)
+	var lv [15]int8
+	for i, name := range effNames {
+		if name == "E" {
+			continue
+		}
+		lv[i] = int8(lvl4(name, e.Get(name)))
+	}
+	for _, cands := range [][]cmax{cMaxEQ1[q[0]], cMaxEQ2[q[1]], cMaxEQ36[q[2]][q[5]], cMaxEQ4[q[3]]} {
+		first := -1
+		for i := range cands {
+			d := dist4(&lv, cands[i:i+1])
+			if d < 0 {
+				continue
+			}
+			if first < 0 {
+				first = d
+			} else if d != first {
+				return false
+			}
+		}
+		if first < 0 {
+			return false
+		}
+	}
+	return true
+}
